@@ -162,6 +162,23 @@ def rule_r1(chk):
         chk.ob("C14-R1", "series._ell_one.lonf[order kept]", ok,
                f"variant solver returns {facts['solver_returns']}, unpacked as {facts['unpack']}, accumulated into the lists behind the "
                f"(first, second) returned series: ({facts['first_list_gets']}, {facts['second_list_gets']}); common start: {facts['same_start']}", lm.loc(h))
+        # the results are dated from the first period of the window the data were taken from
+        from ..core import inline_locals
+        win = [c for c in ast.walk(h) if isinstance(c, ast.Call) and isinstance(c.func, ast.Attribute) and c.func.attr.startswith("iter_own_data_variants") and c.args]
+        ok_, det_ = None, "data window / constructor start not recognised"
+        if len(win) == 1:
+            w0 = inline_locals(h, win[0].args[0])
+            first = unparse(w0.elts[0]) if isinstance(w0, ast.Tuple) and w0.elts else None
+            starts = set()
+            for _, call_, _ in facts["ctors"]:
+                kw_ = {k.arg: k.value for k in call_.keywords}
+                sv = kw_.get("start") or kw_.get("start_date")
+                starts.add(unparse(inline_locals(h, sv)) if sv is not None else None)
+            if first is not None and None not in starts:
+                ok_ = starts == {first}
+                det_ = f"data taken from {first} on; trend and gap dated from {sorted(starts)}" + ("" if ok_ else ": the numbers are right but land on the wrong periods "
+                                                                                                "whenever the span starts after the first observation")
+        chk.ob("C14-R1", "series._ell_one.lonf[dated from the window start]", ok_, det_, lm.loc(h), sure=ok_ is not None)
         # every variant is kept: the list route of the Series constructor keeps only num_variants items
         sm = chk.repo.mod("irispie.series.main")
         fsv = sm.func("_from_start_and_values")
